@@ -825,6 +825,7 @@ func (f *Frugal) UnderlyingType(t *Type) *Type {
 		panic("Attempted to get underlying type of nil type")
 	}
 	typedefIndex := f.typedefIndex
+	declaring := f
 	include := t.IncludeName()
 	if include != "" {
 		parsed, ok := f.ParsedIncludes[include]
@@ -832,12 +833,36 @@ func (f *Frugal) UnderlyingType(t *Type) *Type {
 			return t
 		}
 		typedefIndex = parsed.typedefIndex
+		declaring = parsed
 	}
 	if typedef, ok := typedefIndex[t.ParamName()]; ok {
-		// Recursively call underlying type to handle typedef nesting.
-		return f.UnderlyingType(typedef.Type)
+		// Recursively call underlying type to handle typedef nesting. The
+		// aliased type is named relative to the file declaring the typedef,
+		// so it is resolved there and then named relative to this file.
+		underlying := declaring.UnderlyingType(typedef.Type)
+		if include != "" {
+			underlying = qualifyType(underlying, include)
+		}
+		return underlying
 	}
 	return t
+}
+
+// qualifyType returns the given type, which is named relative to the include
+// with the given name, named relative to the including file: user-defined
+// names declared in the include get the include's name as qualifier.
+func qualifyType(t *Type, include string) *Type {
+	if t == nil {
+		return nil
+	}
+	qualified := *t
+	if t.IsContainer() {
+		qualified.KeyType = qualifyType(t.KeyType, include)
+		qualified.ValueType = qualifyType(t.ValueType, include)
+	} else if !t.IsPrimitive() && t.IncludeName() == "" {
+		qualified.Name = include + "." + t.Name
+	}
+	return &qualified
 }
 
 // ConstantFromField returns a new Constant from the given Field and value.
